@@ -96,3 +96,25 @@ pub mod sync {
         }
     }
 }
+
+/// Drop-in replacement for `tokio::sync::Mutex` whose `lock` is an asynchronous schedule point: importing `Mutex`
+/// from here instead of `tokio::sync` (under `cfg(xet_verif)` only) lets a simulator run other tasks before
+/// *every* acquisition of that lock (an acquisition may always have to wait), including acquisitions that later
+/// changes add, without a hook line at each site.
+pub mod tsync {
+    pub use tokio::sync::MutexGuard;
+
+    #[derive(Debug, Default)]
+    pub struct Mutex<T>(tokio::sync::Mutex<T>);
+
+    impl<T> Mutex<T> {
+        pub fn new(t: T) -> Self {
+            Mutex(tokio::sync::Mutex::new(t))
+        }
+
+        pub async fn lock(&self) -> MutexGuard<'_, T> {
+            super::yield_point("tsync:mutex_lock").await;
+            self.0.lock().await
+        }
+    }
+}
